@@ -375,6 +375,37 @@ def replay(failure):
             return False, "action accepted but obligation is about a refused edit"
         emitted1 = list(emitted)
         detail = f"pre={_brief(S0)} post={_brief(S1)}"
+        if ob.endswith((":after_edit", ":after_undo")) and ob.startswith(("C06.track_neighbors", "C06.has_track_id")):
+            # track queries at a history-built state (the engine's run asked after the edit first, then after the undo)
+            base, where = ob.rsplit(":", 1)
+
+            def ask(which):
+                a = inp.get("query_args:" + which)
+                if a is None:
+                    return None
+                g = tr.graph
+                k_, t_ = a["k"], a["t"]
+                on = [n for n in g.nodes() if g.nodes[n][TID] == k_]
+                before = [n for n in on if g.nodes[n][T] < t_]
+                after = [n for n in on if g.nodes[n][T] > t_]
+                want_pred = max(before, key=lambda n: g.nodes[n][T]) if before else None
+                want_succ = min(after, key=lambda n: g.nodes[n][T]) if after else None
+                if base == "C06.has_track_id_at_time":
+                    r = tr.has_track_id_at_time(k_, t_)
+                    want = any(g.nodes[n][T] == t_ for n in on)
+                    return bool(r) != want, f"has_track_id_at_time({k_},{t_}) = {r}, scan says {want}"
+                pred, succ = tr.get_track_neighbors(k_, t_)
+                if base.endswith("pred"):
+                    return pred != want_pred, f"get_track_neighbors({k_},{t_}) pred={pred}, scan says {want_pred}"
+                return succ != want_succ, f"get_track_neighbors({k_},{t_}) succ={succ}, scan says {want_succ}"
+
+            r = ask("after_edit")
+            if where == "after_edit":
+                return (r[0], detail + " after the edit: " + r[1]) if r else (False, "no query recorded")
+            tr.undo()
+            r = ask("after_undo")
+            return (r[0], detail + f" undone={_brief(snapshot(tr))} after the undo: " + r[1]) if r else (
+                False, "no query recorded")
         if ob.endswith(".holds_after_two_edits") or ob.startswith("C01.second_edit_"):
             # two-edit history: (edit | edit, undo), then a second user action
             if inp.get("followup_after") == "undo":
